@@ -8,6 +8,7 @@ import (
 	"go/ast"
 	"go/printer"
 	"go/token"
+	"sort"
 	"strings"
 
 	"golang.org/x/tools/go/ssa"
@@ -28,6 +29,8 @@ func checkC06(c *Ctx) {
 	c06Suite(c)
 	c06Immutable(c)
 	c06Policy(c)
+	c06PHash(c)
+	c06Clones(c)
 }
 
 type hsRole struct {
@@ -453,5 +456,191 @@ func c06Policy(c *Ctx) {
 			r, _ := canReachSuccess(ee[0].to, &ee[0], successExits(f, spec), fieldValueCut(f, "ClientAuth", k))
 			c.Check(r, rule, fname(f), "a client without certificate can complete under "+pol, "", "with ClientAuth == "+pol+" every path after an empty Certificate message aborts: a configuration the policy allows never completes", f.Pos())
 		}
+	}
+}
+
+// c06PHash: P_hash (RFC 5246 section 5, used by every TLS and GMSSL PRF): A(0) = seed, A(i) = HMAC(secret, A(i-1)),
+// output block i = HMAC(secret, A(i) || seed). Decided on the sequence of Reset/Write/Sum calls on the HMAC object:
+// what is written before each Sum, where each Sum result goes, and that the two Sum results of one round do not
+// share a destination buffer (otherwise A(i) is overwritten by the output block before A(i+1) is derived).
+func c06PHash(c *Ctx) {
+	rule := "K-C06-phash"
+	f := c.Fn("gmtls", "pHash")
+	if f == nil {
+		c.Missing(rule, "gmtls.pHash", "function", "not found")
+		return
+	}
+	var seed, result ssa.Value
+	for _, p := range f.Params {
+		switch p.Name() {
+		case "seed":
+			seed = p
+		case "result":
+			result = p
+		}
+	}
+	type rec struct {
+		writes []string
+		dest   ssa.Value
+		sum    *ssa.Call
+	}
+	var recs []rec
+	name := func(v ssa.Value) string {
+		if v == seed {
+			return "seed"
+		}
+		if _, ok := v.(*ssa.Phi); ok {
+			return "A"
+		}
+		return "?"
+	}
+	for _, b := range f.Blocks {
+		var cur []string
+		known := b == f.Blocks[0]
+		for _, in := range b.Instrs {
+			call, ok := in.(*ssa.Call)
+			if !ok {
+				continue
+			}
+			if sc := call.Call.StaticCallee(); sc != nil && sc.String() == "crypto/hmac.New" {
+				cur, known = nil, true
+				continue
+			}
+			if !call.Call.IsInvoke() {
+				continue
+			}
+			switch call.Call.Method.Name() {
+			case "Reset":
+				cur, known = nil, true
+			case "Write":
+				cur = append(cur, name(call.Call.Args[0]))
+			case "Sum":
+				if !known {
+					cur = append([]string{"?state"}, cur...)
+				}
+				recs = append(recs, rec{append([]string(nil), cur...), call.Call.Args[0], call})
+			}
+		}
+	}
+	if len(recs) != 3 {
+		c.Undecided(rule, fname(f), "HMAC invocations", fmt.Sprintf("%d Sum calls found, expected 3 (A(0), output block, next A)", len(recs)), f.Pos())
+		return
+	}
+	var a0, out, next *rec
+	for i := range recs {
+		switch strings.Join(recs[i].writes, ",") {
+		case "seed":
+			a0 = &recs[i]
+		case "A,seed":
+			out = &recs[i]
+		case "A":
+			next = &recs[i]
+		}
+	}
+	c.Evals++
+	c.Check(a0 != nil && out != nil && next != nil, rule, fname(f), "A(1) = HMAC(seed), block = HMAC(A || seed), next A = HMAC(A)", "", fmt.Sprintf("the HMAC inputs are %v, %v, %v", recs[0].writes, recs[1].writes, recs[2].writes), f.Pos())
+	if a0 == nil || out == nil || next == nil {
+		return
+	}
+	// A is the loop-carried value fed by a0 and next
+	c.Evals++
+	okPhi := false
+	for _, r := range *next.sum.Referrers() {
+		if ph, isPhi := r.(*ssa.Phi); isPhi {
+			for _, e := range ph.Edges {
+				if e == ssa.Value(a0.sum) {
+					okPhi = true
+				}
+			}
+		}
+	}
+	c.Check(okPhi, rule, fname(f), "A is carried round the loop: A(i+1) = HMAC(A(i)) starting from HMAC(seed)", "", "the chaining value written to the HMAC is not the loop-carried result of the previous HMAC(A)", next.sum.Pos())
+	// the output block is what gets copied into result
+	c.Evals++
+	okCopy := false
+	for _, r := range *out.sum.Referrers() {
+		if cp, isCall := r.(*ssa.Call); isCall {
+			if bi, isB := cp.Call.Value.(*ssa.Builtin); isB && bi.Name() == "copy" && cp.Call.Args[1] == ssa.Value(out.sum) {
+				root := cp.Call.Args[0]
+				for {
+					if sl, ok := root.(*ssa.Slice); ok {
+						root = sl.X
+						continue
+					}
+					break
+				}
+				if root == result {
+					okCopy = true
+				}
+			}
+		}
+	}
+	c.Check(okCopy, rule, fname(f), "HMAC(A || seed) is the block copied into the result", "", "the output of HMAC(A || seed) is not what is copied into result", out.sum.Pos())
+	// destinations
+	c.Evals++
+	rootOf := func(v ssa.Value) ssa.Value {
+		for {
+			switch x := v.(type) {
+			case *ssa.Slice:
+				v = x.X
+				continue
+			}
+			return v
+		}
+	}
+	shared := !isNilConst(out.dest) && !isNilConst(next.dest) && rootOf(out.dest) == rootOf(next.dest)
+	sharedA0 := !isNilConst(a0.dest) && !isNilConst(out.dest) && rootOf(a0.dest) == rootOf(out.dest)
+	c.Check(!shared && !sharedA0, rule, fname(f), "the output block and the chaining value do not share a buffer", "", "both HMAC results of a round are appended to the same scratch buffer: the chaining value A(i) aliases it and is overwritten by the next output block before A(i+1) is derived, so every block after the second differs from RFC 5246 P_hash", out.sum.Pos())
+}
+
+// c06Clones: the auto-switch server (auto_handshake_server.go) carries copies of the two ClientHello processors. A
+// copy consults the configuration through the same helpers as its original (which suite list, which versions, which
+// curves, which certificate callback): compared as the set of callees that take the *Config.
+func c06Clones(c *Ctx) {
+	rule := "T-C06-clones"
+	pairs := [][2]string{{"processClientHello", "(*serverHandshakeState).readClientHello"}, {"processClientHelloGM", "(*serverHandshakeStateGM).readClientHello"}}
+	for _, p := range pairs {
+		a, b := c.Fn("gmtls", p[0]), c.Fn("gmtls", p[1])
+		if a == nil || b == nil {
+			c.Missing(rule, "gmtls."+p[0]+" / "+p[1], "functions", "not found")
+			continue
+		}
+		cfg := func(f *ssa.Function) map[string]bool {
+			m := map[string]bool{}
+			for _, ci := range allCalls(f) {
+				sc := ci.Common().StaticCallee()
+				if sc == nil || !inRepo(sc) {
+					continue
+				}
+				takes := false
+				for i := 0; i < sc.Signature.Params().Len(); i++ {
+					if strings.HasSuffix(sc.Signature.Params().At(i).Type().String(), "gmtls.Config") {
+						takes = true
+					}
+				}
+				if r := sc.Signature.Recv(); r != nil && strings.HasSuffix(r.Type().String(), "gmtls.Config") {
+					takes = true
+				}
+				if takes {
+					m[fname(sc)] = true
+				}
+			}
+			return m
+		}
+		ma, mb := cfg(a), cfg(b)
+		var diff []string
+		for k := range ma {
+			if !mb[k] {
+				diff = append(diff, "only the copy calls "+k)
+			}
+		}
+		for k := range mb {
+			if !ma[k] {
+				diff = append(diff, "only the original calls "+k)
+			}
+		}
+		sort.Strings(diff)
+		c.Evals++
+		c.Check(len(diff) == 0 && len(ma) >= 3, rule, fname(a), "consults the configuration through the same helpers as "+p[1], fmt.Sprintf("%d helpers", len(ma)), "the auto-switch copy and its original read the configuration differently ("+strings.Join(diff, "; ")+"): the same configuration negotiates differently depending on which server entry point is used", a.Pos())
 	}
 }
